@@ -28,6 +28,26 @@
 (*               of parser p ("absent" | "v1" | "v2"), changed only by the *)
 (*               environment between calls; a fresh parser reads the       *)
 (*               CURRENT file                                              *)
+(*   hskip[s]    the "skip" entry that a class-help request for a CALLABLE  *)
+(*               typed argument (Callable[[int], Base], Callable[..., B],  *)
+(*               Optional[Callable[[int, float], Base]]: the first k       *)
+(*               __init__ parameters are supplied by the caller) writes    *)
+(*               into the sub_add_kwargs dict of the help action           *)
+(*               (_actions.py:409-410) and never removes: "unset" | "1" |  *)
+(*               "2".  Scope s = "shared": the CLASS-level dict            *)
+(*               _ActionHelpClassPath.sub_add_kwargs (_actions.py:342),    *)
+(*               which every help action added through add_argument uses - *)
+(*               of every parser of the process; "own1" / "own2": the dict *)
+(*               of the help action of a class PARAMETER                   *)
+(*               (_typehints.py:293-294, _signatures.py:403).  The dict of *)
+(*               the typed argument's own action is a different object     *)
+(*               (_signatures.py:424-434) and is never written.  A help    *)
+(*               request for a callable type overwrites the entry before   *)
+(*               it reads it; a help request for a CLASS type (--cls.help) *)
+(*               only reads it - named deviation "HelpSkipResidue": after  *)
+(*               a callable-type help anywhere in the process the class    *)
+(*               help of every shared-dict help action omits the first k   *)
+(*               __init__ parameters.                                      *)
 (*   pk, sap, dk the three context variables that are set WITHOUT reset:   *)
 (*               parse_kwargs (_actions.py:676-680), subclass_arg_parser   *)
 (*               (_typehints.py:438-442), dump_kwargs (_typehints.py:1341) *)
@@ -79,7 +99,19 @@ CONSTANT ShtabBreaksDefaults    \* the root parsers that own a class-typed argum
 (*            unk       an unrecognised option (rejected after the loop)   *)
 (*            pc        --print_config (stores the request)                *)
 (*            pcflag    --print_config=<invalid flag> (raises, no request) *)
-(*            help      --help ;  clshelp  --<cls>.help=<class>            *)
+(*            help      --help ;  clshelp  --<cls>.help=<class>: the help  *)
+(*                      request for a typed argument; fields hscope (which *)
+(*                      sub_add_kwargs dict its help action uses) and hset *)
+(*                      ("-": class type, the dict is only read; "1"/"2":  *)
+(*                      callable type, skip = {k} is written first)        *)
+(*            cbv       a valid value for a callable-typed argument that   *)
+(*                      returns class instances (class_path / init_args /  *)
+(*                      nested keys; a subclass of the return type - its   *)
+(*                      first k parameters are skipped, _typehints.py:1270 *)
+(*                      - or a class whose INSTANCES are callable - none   *)
+(*                      is skipped; no residue: the class parser is thrown *)
+(*                      away and the skip count goes into a COPY of the    *)
+(*                      action's dict, _typehints.py:639-641)              *)
 (*            shtab     --print_shtab=<shell> (prints the completion       *)
 (*                      script and exits 0; root parsers only)             *)
 (*            cfg       --cfg <valid config> (nested parse_string/path)    *)
@@ -113,6 +145,8 @@ CONSTANT ShtabBreaksDefaults    \* the root parsers that own a class-typed argum
 (*          the concretisation; the Alg program is the same.               *)
 (*   ser    dump only: some action.serialize runs (sets dump_kwargs); dkv  *)
 (*          the code of the dump kwargs                                    *)
+(*   hkey   a hint for the concretisation (which typed argument the help   *)
+(*          request / the value is for; "any"); the Alg program is the same *)
 (***************************************************************************)
 ParseMethods == {"parse_args", "parse_object", "parse_string", "parse_path", "parse_env"}
 Stoppers     == {"bad", "pcflag", "help", "clshelp", "cfgbad", "shtab"}
@@ -187,7 +221,8 @@ Items(o, its, k, lvl) ==
                              Fail(ErrCh(o))>>                                                          \* _actions.py:191-205
       [] it = "help"    -> <<Exit0("help")>>                                                           \* argparse._HelpAction
       [] it = "shtab"   -> <<Enter("shtab_ctx", "shell"), I("shtabrun", o.p, "", "", ""), Exit0("shtab")>>     \* ShtabAction.__call__, _completions.py:98-109, :130
-      [] it = "clshelp" -> <<ReadU("args:" \o (IF lvl = "root" THEN o.p ELSE SubName(o.p, lvl))), Exit0("help")>>   \* _actions.py:414-418
+      [] it = "clshelp" -> <<ReadU("args:" \o (IF lvl = "root" THEN o.p ELSE SubName(o.p, lvl))),                   \* _actions.py:414-418
+                             I("helpskip", o.hscope, o.hset, "", ""), Exit0("help")>>                                \* :409-411 skip written (callable type) / read (add_class_arguments(**self.sub_add_kwargs))
       [] IsCfg(it)      -> <<Enter("single_subcommand", "false"), Enter("previous_config", "cfg"), Enter("apply_config_skip", "true"),
                              Enter("load_value_mode", "mode"), Leave>>                                 \* _actions.py:191-205, _core.py:667-668
                            \o (IF lvl = "root" THEN <<PrintPt(o.p, "none", "none", ErrCh(o))>> ELSE << >>)         \* parse_string -> _parse_common:375
@@ -274,12 +309,13 @@ Ctx0 == [v \in ManagedVars |->
              [] v = "nested_links" -> "empty" [] v = "class_instantiators" -> "none" [] v = "defaults_cache" -> "none"
              [] v = "shtab_ctx" -> "none" [] OTHER -> "cwd0"]
 
-Res0(roots, names) == [pending |-> [p \in roots |-> "none"], args |-> [q \in names |-> "unset"], shtab |-> [p \in roots |-> "no"], dcf |-> [p \in roots |-> "absent"],
+HelpScopes == {"shared", "own1", "own2"}
+Res0(roots, names) == [hskip |-> [s \in HelpScopes |-> "unset"], pending |-> [p \in roots |-> "none"], args |-> [q \in names |-> "unset"], shtab |-> [p \in roots |-> "no"], dcf |-> [p \in roots |-> "absent"],
                        pk |-> "unset", sap |-> "unset", dk |-> "unset"]
 
 Start(o, res) == [res |-> res, ctx |-> Ctx0, prog |-> Prog(o), frames |-> << >>, mode |-> "run", out |-> "-",
-                  wr |-> {}, stale |-> FALSE]
-Idle(res)     == [res |-> res, ctx |-> Ctx0, prog |-> << >>, frames |-> << >>, mode |-> "idle", out |-> "-", wr |-> {}, stale |-> FALSE]
+                  wr |-> {}, stale |-> FALSE, dev |-> FALSE]
+Idle(res)     == [res |-> res, ctx |-> Ctx0, prog |-> << >>, frames |-> << >>, mode |-> "idle", out |-> "-", wr |-> {}, stale |-> FALSE, dev |-> FALSE]
 
 Raise(st, out) == [st EXCEPT !.prog = << >>, !.out = out, !.mode = IF st.frames = << >> THEN "done" ELSE "unwind"]
 
@@ -320,6 +356,8 @@ StepFn(st) ==
     [] ins.i = "defaults" -> IF st.res.shtab[ins.a] = "broken" /\ ins.a \in ShtabBreaksDefaults                        \* add_sub_defaults / the file's validation trip over the appended actions
                              THEN (IF st.res.dcf[ins.a] = "absent" THEN Raise(st, ins.b) ELSE IF ins.c = "" THEN nx ELSE Raise(st, ins.c))
                              ELSE nx
+    [] ins.i = "helpskip" -> IF ins.b # "-" THEN [nx EXCEPT !.res.hskip[ins.a] = ins.b]          \* callable type: self.sub_add_kwargs["skip"] = {k}, then used
+                             ELSE [nx EXCEPT !.dev = st.dev \/ st.res.hskip[ins.a] # "unset"]    \* class type: whatever an EARLIER help request left is passed to add_class_arguments
     [] ins.i = "request" -> [nx EXCEPT !.res.pending[ins.a] = ins.b]
     [] ins.i = "readpend" -> nx                                                               \* only changes which links are applied below a sub-command
     [] ins.i = "fail"    -> Raise(st, ins.a)
@@ -349,4 +387,13 @@ ShtabResidue(o, res) == /\ res.shtab[o.p] = "broken"
                         /\ \/ o.m = "parse_args"
                            \/ o.p \in ShtabBreaksDefaults /\ o.m \in {"parse_object", "parse_string", "parse_path", "parse_env", "get_defaults"}
                            \/ o.p \in ShtabBreaksDefaults /\ o.m = "format_help" /\ res.dcf[o.p] = "absent"     \* with a file format_help swallows the ArgumentError (:1307)
+\* the third named deviation: the call prints the class help of a CLASS-typed argument whose help action uses a dict in
+\* which an earlier help request for a callable-typed argument left skip = {k}: the help text lacks the first k parameters
+\* (the answer class is unchanged: the help is printed, exit 0)
+ReachesClsHelp(o) == /\ o.m = "parse_args" /\ o.pre = "ok"
+                     /\ LET k == FirstStop(o.items)  lim == IF k = 0 THEN Len(o.items) + 1 ELSE k IN
+                        /\ ~PcThenCfg(o.items, lim)
+                        /\ \/ k > 0 /\ o.items[k] = "clshelp"
+                           \/ k = 0 /\ o.sub # "none" /\ FirstStop(o.sitems) > 0 /\ o.sitems[FirstStop(o.sitems)] = "clshelp"
+HelpSkipResidue(o, res) == ReachesClsHelp(o) /\ o.hset = "-" /\ res.hskip[o.hscope] # "unset"
 =============================================================================
